@@ -13,7 +13,13 @@ PROP = {'areas': [{'area': 'engine',
             'only_prop': 'C05',
             'quick': 12000,
             'thorough': 2000000,
-            'tie_fields': ['out', 'ev', 'hq', 'q2in', 'ops']}],
+            'tie_fields': ['out', 'ev', 'hq', 'q2in', 'ops']},
+           {'area': 'c12',
+            'corpus': ['corpus/C12/d13.txt', 'corpus/C12/d10b.txt'],
+            'only_sig': '^C05:client-surfacing',
+            'quick': 3000,
+            'thorough': 300000,
+            'tie_sig': '^$'}],
  'coq_target': 'Properties/C05.vo',
  'modelled': 'protocol.rs ProtocolState: handle_user_event, handle_network_event (opened / closed / incoming data / write completion), service '
              '(pending-connack / connected / pending-disconnect), get_next_service_timepoint, reset and every helper they call (operation table, three intake '
@@ -32,7 +38,9 @@ PROP = {'areas': [{'area': 'engine',
          'response (outcome, state, completions, packet events, bytes, next service time, full bookkeeping snapshot) is compared (kind=tie, with the set of '
          "diverging fields); the extracted monitors of Engine/Monitors.v judge the IMPLEMENTATION's observation (kind=property, with the first observation at "
          'which the monitor turns false and the script that reproduces it). distinct = distinct command scripts; non-trivial = reached at least one '
-         'interesting predicate (x_interesting_predicates_reached)'}
+         'interesting predicate (x_interesting_predicates_reached) || CLIENT LEVEL: the client area (real MqttClientImpl over the real engine, driven event by '
+         'event) with the monitor "every PUBLISH the engine processes in a read is surfaced to the listeners by that call, whatever the call returns" (reads '
+         'holding a publish followed by a server DISCONNECT / an illegal CONNACK / garbage are generated).'}
 
 META = {'design_ref': 'DESIGN.md section 7 / C05',
  'level_note': 'Trusted: Coq kernel; the tie (facade engine.rs, harness, OCaml driver incl. the generator); the reference codec used by the simulated broker '
@@ -40,22 +48,25 @@ META = {'design_ref': 'DESIGN.md section 7 / C05',
                'discharged in the codec / validation / alias developments or stated as premises.',
  'level_text': 'RUN-LEVEL Coq theorems (EngineProofs/Inbound*.v, for an ARBITRARY start state and any decoder / resolver / validator / encoder; only premise: '
                'no step of the history panicked, discharged for the concrete instance from the initial state by C05_instance_refines via the well-formedness '
-               'development): C05_q2in_refines - after every event history the set of unreleased inbound QoS 2 ids equals (as a list) the abstract specification '
-               'q2_spec folded over the log of packets the engine actually handed to its handlers (+ processed QoS 2 PUBLISH, - processed PUBREL, cleared by an '
-               'accepted session-absent CONNACK and by reset; submissions, open, close, write completion, service, timer queries and all other packets change '
-               'nothing; packets after the first failure of a data call are not processed); C05_events_refine - the packet events surfaced over the history are '
-               'exactly, in order, every processed QoS 0/1 PUBLISH, every processed QoS 2 PUBLISH whose id is not in the set at that moment (topic as resolved by '
-               'the inbound alias resolver), every successful or refusing awaited CONNACK and every accepted server DISCONNECT; C05_qos2_surfaced_once(_between) - '
-               'between two releases of an id (PUBREL / session-absent CONNACK / reset) at most one QoS 2 publish with that id is surfaced, over closes and '
-               'session-present reconnects too; C05_packet_loop_refines / C05_data_appends_acks / C05_ack_operation_created - a data call appends to the BACK of '
-               'the high-priority queue, in packet order, exactly one fresh PUBACK(id) per processed QoS 1 PUBLISH, one PUBREC(id) per processed QoS 2 PUBLISH '
-               '(new or duplicate), one PUBCOMP(id, reason 0 even for an unknown id) per processed PUBREL, plus the PUBREL carrier of an outbound QoS 2 publish '
-               'whose PUBREC arrived, and nothing else; C05_hq_step_shape / C05_acks_fifo_step / C05_dequeue_takes_head - every step only pushes at the front '
-               '(DISCONNECT, CONNECT, PINGREQ), removes a prefix (service takes the head, close / reset drop all) or appends at the back, so entries keep '
-               'their order and leave from the head. ONE-STEP theorems for every state (C05_qos1_puback ... C05_close_keeps_inbound_qos2) as before. '
-               'NOT proved in Coq: that a queued acknowledgement operation is encoded to the wire unchanged (service loop + codec: C02/C10) and is still in the '
-               'operation table when dequeued, and the last step from the FIFO queue to the order of bytes on the wire; these, and the whole property on the '
-               'IMPLEMENTATION, are the monitors mon_c05_acks / mon_c05_deliver on the implementation trace (lock-step with the extracted model), against a '
-               'simulated broker that keeps its inbound QoS 2 session state and retransmits unreleased publishes',
+               'development): C05_q2in_refines - after every event history the set of unreleased inbound QoS 2 ids equals (as a list) the abstract '
+               'specification q2_spec folded over the log of packets the engine actually handed to its handlers (+ processed QoS 2 PUBLISH, - processed '
+               'PUBREL, cleared by an accepted session-absent CONNACK and by reset; submissions, open, close, write completion, service, timer queries and all '
+               'other packets change nothing; packets after the first failure of a data call are not processed); C05_events_refine - the packet events '
+               'surfaced over the history are exactly, in order, every processed QoS 0/1 PUBLISH, every processed QoS 2 PUBLISH whose id is not in the set at '
+               'that moment (topic as resolved by the inbound alias resolver), every successful or refusing awaited CONNACK and every accepted server '
+               'DISCONNECT; C05_qos2_surfaced_once(_between) - between two releases of an id (PUBREL / session-absent CONNACK / reset) at most one QoS 2 '
+               'publish with that id is surfaced, over closes and session-present reconnects too; C05_packet_loop_refines / C05_data_appends_acks / '
+               'C05_ack_operation_created - a data call appends to the BACK of the high-priority queue, in packet order, exactly one fresh PUBACK(id) per '
+               'processed QoS 1 PUBLISH, one PUBREC(id) per processed QoS 2 PUBLISH (new or duplicate), one PUBCOMP(id, reason 0 even for an unknown id) per '
+               'processed PUBREL, plus the PUBREL carrier of an outbound QoS 2 publish whose PUBREC arrived, and nothing else; C05_hq_step_shape / '
+               'C05_acks_fifo_step / C05_dequeue_takes_head - every step only pushes at the front (DISCONNECT, CONNECT, PINGREQ), removes a prefix (service '
+               'takes the head, close / reset drop all) or appends at the back, so entries keep their order and leave from the head. ONE-STEP theorems for '
+               'every state (C05_qos1_puback ... C05_close_keeps_inbound_qos2) as before. NOT proved in Coq: that a queued acknowledgement operation is '
+               'encoded to the wire unchanged (service loop + codec: C02/C10) and is still in the operation table when dequeued, and the last step from the '
+               'FIFO queue to the order of bytes on the wire; these, and the whole property on the IMPLEMENTATION, are the monitors mon_c05_acks / '
+               'mon_c05_deliver on the implementation trace (lock-step with the extracted model), against a simulated broker that keeps its inbound QoS 2 '
+               "session state and retransmits unreleased publishes At the client level (dispatch of the engine's packet events to the listeners, client/mod.rs "
+               "handle_incoming_bytes) the statement is the client model's dispatch (Client/Impl.v: events are dispatched whatever the result) tied in "
+               'lock-step, plus the monitor C05:client-surfacing of the client area.',
  'technique': 'machine-checked proof in Coq over the engine model + lock-step correspondence of the extracted model with the implementation + extracted '
               'monitors on the implementation trace'}
